@@ -61,7 +61,7 @@ def run_twin(case):
 def run_detached(case):
     """the same workload served twice: with a recording next hop and with no next hop at all (out = None). Handing a packet on
     schedules nothing, so the two runs must agree step by step on the clock, the per-flow counters and the packet in service"""
-    a = schedlab.Run(case)
+    a = schedlab.Run(case, record_states=True)
     a.go()
     info = judge(a, case)
     b = schedlab.Run(case, detach_out=True)
@@ -247,7 +247,7 @@ def twin_strategy(tier):
 
 
 def facet_for(kind):
-    return Facet(kind, lambda tier, k=kind: spec_strategy(k, tier), run_sched, quick=450, thorough=3000,
+    return Facet(kind, lambda tier, k=kind: spec_strategy(k, tier), run_sched, quick=750, thorough=3000,
                  essential=["busy period >=3 packets from >=2 flows", "arrival exactly at a transmission end",
                             "idle gap between busy periods", "sample inside a transmission"]
                  + (["many-to-one flow2class"] if kind in ("WFQ", "VC", "DRR") else []))
@@ -270,7 +270,7 @@ PROP = Property(
               run_detached, quick=300, thorough=2000, essential=["served without a next hop"]),
         Facet("twin", twin_strategy, run_twin, quick=400, thorough=2500,
               essential=["twins transmitting at the same time", "busy period >=3 packets from >=2 flows"]),
-        Facet("monitor", monitor_strategy, run_monitor, quick=500, thorough=3000,
+        Facet("monitor", monitor_strategy, run_monitor, quick=1000, thorough=3000,
               essential=["sample while a packet of the flow is in service", "sample with a queue",
                          "flow first sampled, then polled, then sends its first packet", "flow ids beyond the small-integer cache"])],
     assumptions=["workloads use configured flows only, positive priorities/weights/vticks (others make the loops spin; outside "
